@@ -99,6 +99,8 @@ def parseLabel (j : Json) : R (Tid × Option Label) := do
   | [t, .str "relU"] => return (← t.getNat?, some .relU)
   | [t, .str "acqA"] => return (← t.getNat?, some .acqA)
   | [t, .str "relA"] => return (← t.getNat?, some .relA)
+  | [t, .str "acqS"] => return (← t.getNat?, some .acqS)
+  | [t, .str "relS"] => return (← t.getNat?, some .relS)
   | [t, .str "send", c] => return (← t.getNat?, some (.send (← c.getNat?)))
   | _ => throw s!"bad label {j.compress}"
 
